@@ -59,11 +59,9 @@ def run(ck):
 
 PARTIAL = [
     "cur_eq_charge / no_drift / moved_in_charge_released / limit_zero_lifts hold for states reached by every "
-    "operation except talloc_disable_null_tracking, with arguments that are live user objects and keep the holder "
+    "operation (talloc_disable_null_tracking included) with arguments that are live user objects and keep the holder "
     "graph acyclic (Reach), and for runs whose ghost flags oof/stuck stay clear (printed on every state of every "
     "correspondence run, never set)",
-    "moved_in_charge_released is stated as the accounting invariant of the post-state of any operation (the sum "
-    "ranges over the tree as it is after the move), not as an explicit before/after difference",
 ]
 
 
